@@ -421,19 +421,19 @@ fn eval_spectrum(ctx: &Ctx, case: &SpectrumCase) -> Verdict {
 }
 
 pub fn check(ctx: &Ctx) -> Check {
-    let min_per_stat = ctx.tier.pick(200u64, 2000);
+    let min_per_stat = ctx.tier.pick(200u64, 5000);
     let parts: Vec<Box<dyn Part>> = vec![
         Box::new(RandomPart {
             name: "definitions-on-genotypes",
             rule: "call sets with 1..4 populations of unequal size (and two single-sample populations for the 3x3 kinship statistics), `sfs create` -> file -> `sfs stat --precision 12`; the harness expands every counted record into haplotypes and evaluates each quantity literally (pair enumeration for pi / pi_xy, per-site allele-frequency products for f2/f3/f4, summed per-site Hudson terms, a direct 3x3 tally for R0/R1/KING, counts for S and sum); a statistic whose defining denominator is 0 on the data is not compared; non-trivial = >=5 polymorphic counted records and (unequal population sizes | one population | the kinship case with all three ratios defined)",
-            cases: ctx.tier.pick(3200, 30_000),
+            cases: ctx.tier.pick(3200, 100_000),
             strategy: Box::new(|| geno_strategy().boxed()),
             eval: Box::new(eval_geno),
         }),
         Box::new(RandomPart {
             name: "estimator-formulas",
             rule: "one-axis count spectra, n from 3 to 600 chromosomes (edges 169..172 forced), random integer counts with zeros: Watterson's theta, pi, Tajima's D (1989 constants) and Fu and Li's D (1993 constants) re-derived from the papers' notation with compensated sums, through the library and (20%) through `sfs stat`; D compared with a tolerance scaled by the cancelling terms; non-trivial = S >= 2 and >= 2 non-zero interior classes",
-            cases: ctx.tier.pick(8000, 100_000),
+            cases: ctx.tier.pick(8000, 400_000),
             strategy: Box::new(|| spectrum_strategy(0.2).boxed()),
             eval: Box::new(eval_spectrum),
         }),
